@@ -22,7 +22,7 @@ PAN3_EXCEPTIONS = {
 
 def pan2_parse_layer(ctx):
     ctx.rule('PAN-2', 'no explicit panic source in the text -> AST -> Query conversion '
-                      '(syntax::parser and its crate-local callees)', floor=10)
+                      '(syntax::parser and its crate-local callees)', floor=5)
     P = ctx.P
     root = P.one('syntax::parser::parse_query')
     return panics.pan_scope(ctx, 'PAN-2', [root], lambda b: b.name.startswith('syntax::'),
